@@ -6,7 +6,7 @@ Local Open Scope string_scope.
 Local Open Scope list_scope.
 
 Definition walk_tbl : wtable := [
-  ("Field", [WMany "Names"; WOne "Type" false; WOne "Tag" true]);
+  ("Field", [WMany "Names"; WOne "Type" true; WOne "Tag" true]);
   ("FieldList", [WMany "List"]);
   ("BadExpr", []);
   ("Ident", []);
